@@ -3,7 +3,9 @@ use quote::{quote, ToTokens};
 use syn::parse_quote;
 use syn::{Data, DeriveInput, Fields};
 
-use crate::helpers::{non_enum_error, strum_discriminants_passthrough_error, HasTypeProperties};
+use crate::helpers::{
+    discriminant_tokens, non_enum_error, strum_discriminants_passthrough_error, HasTypeProperties,
+};
 
 /// Attributes to copy from the main enum's variants to the discriminant enum's variants.
 ///
@@ -55,10 +57,10 @@ pub fn enum_discriminants_inner(ast: &DeriveInput) -> syn::Result<TokenStream> {
     let mut discriminants = Vec::new();
     for variant in variants {
         let ident = &variant.ident;
-        let discriminant = variant
-            .discriminant
-            .as_ref()
-            .map(|(_, expr)| quote!( = #expr));
+        let discriminant = variant.discriminant.as_ref().map(|(_, expr)| {
+            let expr = discriminant_tokens(expr);
+            quote!( = #expr)
+        });
 
         // Don't copy across the "strum" meta attribute. Only passthrough the whitelisted
         // attributes and proxy `#[strum_discriminants(...)]` attributes
